@@ -66,6 +66,12 @@ void yield(const char* why = nullptr);              // explicit scheduling point
 bool block_until(const std::function<bool()>& pred, uint64_t deadline_ns, const char* what);
 void sleep_ns(uint64_t ns);
 
+// Harness-level synchronisation made of plain flags and block_until is invisible to ThreadSanitizer (the scheduler's hand-offs are
+// deliberately not annotated, so that only the code under test's own synchronisation orders its accesses).  Where the harness itself
+// orders two threads - "wait until the canceller thread has finished, then destroy the engine" - it says so with these.
+void hb_release(const void* tag);
+void hb_acquire(const void* tag);
+
 // spawn a simulated thread (detached unless joinable); returns its sim id
 int spawn(const char* role, std::function<void()> fn);
 int live_threads();                  // simulated threads not yet finished (incl. caller)
